@@ -29,7 +29,8 @@ REAL_TO_SPEC = {v: k for k, v in SPEC_TO_REAL.items()}
 
 def _types():
     from lv.universe import tv_m1, tv_m2
-    return {'m1.T': tv_m1.T, 'm2.T': tv_m2.T, 'm1.TX': tv_m1.TX, 'm1.TSub': tv_m1.TSub, 'm1.T_': tv_m1.T_, 'm1.T__V': tv_m1.T__V}
+    return {'m1.T': tv_m1.T, 'm2.T': tv_m2.T, 'm1.TX': tv_m1.TX, 'm1.TSub': tv_m1.TSub, 'm1.T_': tv_m1.T_, 'm1.T__V': tv_m1.T__V,
+            'm1.M5': tv_m1.M5}
 
 
 def _tname(cls):
